@@ -56,9 +56,12 @@ Under(p, a) == a \in Ancestors(p)
 
 Entry == [path : Paths, kind : Kinds]
 LegalEntry(e) == /\ (e.kind = "opq" => IsDirSlot(e.path))
-                 /\ (e.kind = "link" => e.path # LinkTarget /\ ~Under(e.path, LinkTarget))
+                 /\ (e.kind \in {"link", "hl"} => e.path # LinkTarget /\ ~Under(e.path, LinkTarget))
 Entries == {e \in Entry : LegalEntry(e)}
-IsAdd(k) == k \in {"f1", "f2", "dir", "link"}
+IsAdd(k) == k \in {"f1", "f2", "dir", "link", "hl"}
+\* "hl" is a hard link entry (tar TypeLink) naming /e: the path becomes another name of the regular file that /e
+\* is at that moment, and keeps that content whatever later layers do to /e
+NonDirKinds == {"f1", "f2", "link", "hl"}
 
 -----------------------------------------------------------------------------
 (* ---------------- declarative: OCI layer application ---------------- *)
@@ -73,7 +76,8 @@ EnsureParents(view, p) == [q \in Paths |-> IF q \in Ancestors(p) /\ view[q] # "d
 \* an ancestor that was not a directory and becomes one had no children: nothing else to drop
 AddOne(view, e) ==
   LET v1 == EnsureParents(view, e.path)
-  IN [q \in Paths |-> IF q = e.path THEN e.kind
+      k == IF e.kind = "hl" THEN view[LinkTarget] ELSE e.kind
+  IN [q \in Paths |-> IF q = e.path THEN k
                        ELSE IF Under(q, e.path) /\ e.kind # "dir" THEN None
                        ELSE v1[q]]
 RECURSIVE ApplyEntries(_, _)
@@ -120,7 +124,7 @@ PopulateDirs(trees, i, n, ds) ==
 ProcessEntry(trees, i, n, e) ==
   IF e.kind = "opq" THEN PopulateDirs(trees, i, n, AncSeq(e.path) \o <<e.path>>)   \* an inert node named ".wh..opq" in the directory
   ELSE IF Has(trees[i], e.path) THEN trees                                           \* "already exists in the current chain layer"
-  ELSE LET node == IF e.kind = "wh" THEN [k |-> "f1", wh |-> TRUE, ho |-> FALSE] ELSE [k |-> e.kind, wh |-> FALSE, ho |-> FALSE]
+  ELSE LET node == IF e.kind = "wh" THEN [k |-> "f1", wh |-> TRUE, ho |-> FALSE] ELSE [k |-> IF e.kind = "hl" THEN "link" ELSE e.kind, wh |-> FALSE, ho |-> FALSE]
        IN FillFrom(PopulateDirs(trees, i, n, AncSeq(e.path)), i, n, e.path, node)
 RECURSIVE ProcessLayer(_, _, _, _)
 ProcessLayer(trees, i, n, es) == IF es = <<>> THEN trees ELSE ProcessLayer(ProcessEntry(trees, i, n, Head(es)), i, n, Tail(es))
@@ -149,7 +153,7 @@ NoMarkerUnderWhiteout(layer) == \A i, j \in DOMAIN layer :
      (layer[i].kind = "wh" /\ layer[j].kind \in {"wh", "opq"} /\ i # j) =>
         ~(Under(layer[j].path, layer[i].path) \/ (layer[j].kind = "opq" /\ layer[j].path = layer[i].path))
 NothingUnderNonDir(layer) == \A i, j \in DOMAIN layer :
-     (i # j /\ layer[i].kind \in {"f1", "f2", "link"}) => ~Under(layer[j].path, layer[i].path)
+     (i # j /\ layer[i].kind \in NonDirKinds) => ~Under(layer[j].path, layer[i].path)
 OpaqueOnlyOnDir(layer) == \A i, j \in DOMAIN layer :
      (layer[i].kind = "opq" /\ i # j /\ layer[j].path = layer[i].path) => layer[j].kind = "dir"
 GoodLayer(l) == NoDupPaths(l) /\ NoMarkerUnderWhiteout(l) /\ NothingUnderNonDir(l) /\ OpaqueOnlyOnDir(l)
@@ -161,8 +165,12 @@ Eff(im) == [i \in 1..Len(im) |-> SelectSeq(im[i], Keep)]
 Init == img = <<>> /\ cur = <<>>
 \* a deletion marker sits in a directory: its ancestors are directories (or absent) in the image below
 MarkerInDirs(e) == e.kind \in {"wh", "opq"} => \A q \in Ancestors(e.path) : Overlay(img, Len(img))[q] \in {"dir", None}
+\* a hard link names an existing regular file (of the image below or earlier in the same tar), and nothing later in
+\* the same layer touches that file
+HardLinkOK(e) == /\ (e.kind = "hl" => Apply(Overlay(img, Len(img)), cur)[LinkTarget] \in {"f1", "f2"})
+                 /\ ((\E i \in DOMAIN cur : cur[i].kind = "hl") => (e.path # LinkTarget /\ ~Under(LinkTarget, e.path)))
 AddEntry(e) == /\ Len(img) < MaxLayers /\ Len(cur) < MaxEntries[Len(img) + 1]
-               /\ GoodLayer(Append(cur, e)) /\ MarkerInDirs(e)
+               /\ GoodLayer(Append(cur, e)) /\ MarkerInDirs(e) /\ HardLinkOK(e)
                /\ cur' = Append(cur, e) /\ UNCHANGED img
 \* a diff that puts something below a path which is a non-directory in the image below carries the directory entry for it
 ParentsAnnounced == \A i \in DOMAIN cur : \A q \in Ancestors(cur[i].path) :
@@ -180,9 +188,13 @@ HasSameLayerWhRecreate(im) == \E i \in DOMAIN im : \E w \in Whiteouts(im[i]) :
 \* classes of the original (unrepaired) code, FixHidden = FALSE
 HasDeepWhiteout(im) == \E i \in DOMAIN im : i > 1 /\ \E w \in Whiteouts(im[i]) : \E p \in Paths :
                           p # w /\ Under(p, w) /\ Parent[p] # w /\ Overlay(im, i - 1)[p] # None
-HasNonDirOverDir(im) == \E i \in DOMAIN im : i > 1 /\ \E k \in DOMAIN im[i] : im[i][k].kind \in {"f1", "f2", "link"}
+HasNonDirOverDir(im) == \E i \in DOMAIN im : i > 1 /\ \E k \in DOMAIN im[i] : im[i][k].kind \in NonDirKinds
                           /\ Overlay(im, i - 1)[im[i][k].path] = "dir"
+\* hard links are stored as symlink nodes naming the target path: listings show a symlink, and the name follows
+\* whatever later layers do to the target
+HasHardLink(im) == \E i \in DOMAIN im : \E k \in DOMAIN im[i] : im[i][k].kind = "hl"
 Devs(im) == (IF HasOpaque(im) THEN {"C04-opaque-ignored"} ELSE {})
+       \cup (IF HasHardLink(im) THEN {"C04-hardlink-as-symlink"} ELSE {})
        \cup (IF HasSameLayerWhRecreate(im) THEN {"C04-same-layer-whiteout-recreate"} ELSE {})
        \cup (IF ~FixHidden /\ HasDeepWhiteout(im) THEN {"C04-deep-whiteout-lookup"} ELSE {})
        \cup (IF ~FixHidden /\ HasNonDirOverDir(im) THEN {"C04-nondir-over-dir-lookup"} ELSE {})
@@ -191,10 +203,14 @@ Devs(im) == (IF HasOpaque(im) THEN {"C04-opaque-ignored"} ELSE {})
 \* a path deleted / made a non-directory by layer i, made a directory again by a later layer j, with older contents below it
 HasRecreatedDirOverDeletion(im) ==
   \E i, j \in DOMAIN im : i > 1 /\ i < j /\ \E a \in DOMAIN im[i] :
-     /\ im[i][a].kind \in {"wh", "f1", "f2", "link"}
+     /\ im[i][a].kind \in ({"wh"} \cup NonDirKinds)
      /\ \E p \in Paths : Under(p, im[i][a].path) /\ Overlay(im, i - 1)[p] # None
      /\ \E b \in DOMAIN im[j] : im[j][b].path = im[i][a].path \/ Under(im[j][b].path, im[i][a].path)
+\* a hard link made by layer i whose target a later layer replaces or deletes
+HlTargetTouchedLater(im) == \E i, j \in DOMAIN im : i < j /\ (\E a \in DOMAIN im[i] : im[i][a].kind = "hl")
+                               /\ \E b \in DOMAIN im[j] : im[j][b].path = LinkTarget \/ Under(LinkTarget, im[j][b].path)
 SqDevs(im) == (IF HasOpaque(im) THEN {"C04-unpack-opaque-ignored"} ELSE {})
+         \cup (IF HlTargetTouchedLater(im) THEN {"C04-unpack-hardlink-follows-target"} ELSE {})
          \cup (IF HasSameLayerWhRecreate(im) THEN {"C04-unpack-same-layer-whiteout-recreate"} ELSE {})
          \cup (IF HasRecreatedDirOverDeletion(im) THEN {"C04-unpack-resurrected-under-recreated-dir"} ELSE {})
 
